@@ -288,6 +288,16 @@ def run_case(case):
                 for t in range(1, ntraj + 1):
                     ts.add(build(case, t))
                 ts.save(base_file=base)
+            elif layout == 'save_retry':
+                ts = TS.create()
+                for t in range(1, ntraj + 1):
+                    ts.add(build(case, t))
+                try:
+                    ts.save(base_file=base, associated_files=[(d / 'no-such-dir' / 'a.nc', ['vc_codec'])])
+                    devs.append(('save-retry:first-save-accepted', 'save with an associated file in a directory that does not exist was accepted'))
+                except ValueError:
+                    pass
+                ts.save(base_file=base)
             elif layout == 'create_associated':
                 ts = TS.create(base_file=base)
                 for t in range(1, ntraj + 1):
@@ -371,7 +381,7 @@ def neg_control(ctx, sub, expect):
 def run(ctx: Ctx):
     ctx.rule = (
         'cases = species subsets for 4 species-indexed fields (TS, TS, TSP, TSM) x second-trajectory selector x unset pattern of 3 optional '
-        'scalars x set/None/never-assigned pattern of 2 default-bearing optional scalars x 7 file layouts (incl. a species-carrying base file with an associated file of its own species list made by create_associated); exhaustive over the 2-species universe {CO2, NOx} (gap in the enum), seeded random over {CO2, HC, NOx, SO4}; '
+        'scalars x set/None/never-assigned pattern of 2 default-bearing optional scalars x 8 file layouts (incl. a species-carrying base file with an associated file of its own species list made by create_associated); exhaustive over the 2-species universe {CO2, NOx} (gap in the enum), seeded random over {CO2, HC, NOx, SO4}; '
         'non-trivial = file species list has a gap w.r.t. the Species enumeration or fields carry different species sets'
     )
     ctx.assumptions += [
